@@ -188,7 +188,7 @@ void vf_harness_error(const char *fmt, ...) __attribute__((format(printf, 1, 2),
 typedef struct vf_path { int n; int ev[4096]; } vf_path;
 extern void (*vf_cex_writer)(FILE *f);     /* set by the engine: writes "events":[...] etc. */
 int  vf_nviolations(void);
-extern uint64_t vf_violation_events; extern double vf_first_violation_t;
+extern uint64_t vf_violation_events; extern double vf_first_violation_t; extern int vf_suppress;
 #define VF_GRACE_AFTER_VIOLATION_S 15.0   /* engines stop this long after the first violation (reported as a cap) */
 void vf_outcome(uint64_t h);               /* register a distinct observed outcome */
 uint64_t vf_hash64(const void *p, size_t n, uint64_t seed);
